@@ -12,13 +12,13 @@ namespace Srad.Host
 theorem C14_stale_nbirth_ignored (c : Cfg) (s : St) (ts bd id : Nat) (ans : Ans) (now wall : Nat)
     (h : ts ≤ s.birthTs) :
     step c s (.nbirth ts bd id ans) now wall = (s, []) := by
-  sorry
+  simp [step, handleBirth, h]
 
 /-- an invalid payload with the switch off changes nothing at all -/
 theorem C14_invalid_payload_frame_off (c : Cfg) (a : App) (n now wall : Nat)
     (h : c.invalidPayload = false) :
     appStep c a (.invalidPayload n) now wall = (a, []) := by
-  sorry
+  exact appStep_invalid_off c a n now wall h
 
 /-- with the switch on, the only thing that happens is the rebirth request to that node's actor
 (creating the actor if the node was unknown); no other node is touched and no store receives
@@ -31,12 +31,12 @@ theorem C14_invalid_payload_frame_on (c : Cfg) (a : App) (n now wall : Nat)
         e = AppEff.node n Eff.timerCancel ∨ ∃ d, e = AppEff.node n (Eff.devStale d)) ∧
     (appStep c a (.invalidPayload n) now wall).1.nodes.map Prod.fst
         = (if (findNode n a.nodes).isSome then a.nodes.map Prod.fst else a.nodes.map Prod.fst ++ [n]) := by
-  sorry
+  exact appStep_invalid_on c a n now wall h
 
 /-- messages for one node never touch another node's actor -/
 theorem C14_nodes_do_not_interfere (c : Cfg) (a : App) (n m : Nat) (i : In) (now wall : Nat)
     (h : m ≠ n) :
     findNode m (appStep c a (.node n i) now wall).1.nodes = findNode m a.nodes := by
-  sorry
+  exact appStep_node_find_ne c a n m i now wall h
 
 end Srad.Host
